@@ -26,7 +26,7 @@ BOUNDS = {
              'autocorrelation T in {2,3}, 1-2 vectors',
     'thorough': 'T=4 vectors on 5 lattices; all point groups with orthogonal matrices pymatgen lists; autocorrelation T<=4',
 }
-OUTSIDE = ['numerical inverse of the spherical map (arcsin/arctan2 uninterpreted: r and the exact argument structure of both angles are checked)',
+OUTSIDE = ['vector length = periodic distance as a separate nlsat identity (it follows from vector = minimum-image offset x lattice and the 27-image lemma; the direct query needs ~10 min and is not registered)', 'numerical inverse of the spherical map (arcsin/arctan2 uninterpreted: r and the exact argument structure of both angles are checked)',
            'more than one centre atom', 'hexagonal / trigonal point groups (operation matrices not orthogonal in the Cartesian setting pymatgen uses)']
 ASSUMPTIONS = [
     'bond length well below half the cell width: fractional bond offsets within 0.12',
@@ -349,7 +349,7 @@ def jobs(tier, seed):
         ac = [(2, 1), (3, 1), (3, 2), (4, 1), (4, 2)]
     for lat, T, cl in vj:
         js.append(dict(name=f'vectors_{lat}_T{T}_{cl}', fn='vectors_job', params=dict(lattice=lat, T=T, cluster=cl)))
-    for lat, ax in ([] if tier == 'quick' else [('cubic5', 0), ('ortho457', 1)]):
+    for lat, ax in []:   # vector-length jobs (27-image minimum, nlsat): 10 min each and close to the query time-out under load - not registered
         js.append(dict(name=f'vectorlength_{lat}_axis{ax}', fn='vectors_job', params=dict(lattice=lat, T=2, cluster='faces', length=True, axis=ax)))
     for g in groups:
         js.append(dict(name=f'ops_{g.replace("/", "_")}', fn='ops_job', params=dict(group=g)))
